@@ -301,6 +301,10 @@ def c10_4(ctx):
 def _iter_order(fn, nid, it, dicts, rd, cfg, depth=0):
     if isinstance(it, ast.Call) and call_name(it) == "sorted":
         return True
+    if isinstance(it, (ast.ListComp, ast.GeneratorExp)) and depth < 3:
+        # a comprehension lists its elements in the order of what it iterates over
+        vs = [_iter_order(fn, nid, g.iter, dicts, rd, cfg, depth + 1) for g in it.generators]
+        return False if any(x is False for x in vs) else (None if any(x is None for x in vs) else True)
     if isinstance(it, ast.Constant) or (isinstance(it, (ast.Tuple, ast.List)) and it.elts):
         return True  # a literal has one order (and None cannot be iterated at all): nothing depends on insertion history
     if isinstance(it, ast.Attribute):
@@ -320,7 +324,7 @@ def _iter_order(fn, nid, it, dicts, rd, cfg, depth=0):
         ds = rd.reaching(nid, it.id)
         if not ds:
             return None
-        ok = True
+        verdicts = []
         for d in ds:
             g = rd.gen.get(d, {}).get(it.id)
             if not g or g[0] != "val":
@@ -330,14 +334,15 @@ def _iter_order(fn, nid, it, dicts, rd, cfg, depth=0):
                 # appends happen inside loops: all those loops must be ordered
                 for lp in cfg.loops.values():
                     if isinstance(lp.stmt, ast.For) and any(isinstance(c, ast.Call) and call_name(c) == "append" and dotted(c.func.value) == it.id for c in ast.walk(lp.stmt)):
-                        r = _iter_order(fn, lp.test_nodes[0], lp.stmt.iter, dicts, rd, cfg, depth + 1)
-                        if r is not True:
-                            ok = r
+                        verdicts.append(_iter_order(fn, lp.test_nodes[0], lp.stmt.iter, dicts, rd, cfg, depth + 1))
             else:
-                r = _iter_order(fn, d, v, dicts, rd, cfg, depth + 1)
-                if r is not True:
-                    ok = r
-        return ok
+                verdicts.append(_iter_order(fn, d, v, dicts, rd, cfg, depth + 1))
+        # one filling loop over an unsorted dictionary is enough for a history-dependent order (a positive reason); otherwise undecided wins over ordered
+        if any(x is False for x in verdicts):
+            return False
+        if any(x is None for x in verdicts):
+            return None
+        return True
     return None
 
 
